@@ -32,6 +32,6 @@ R1_ImageExact == brk.rule = "" =>
              /\ {a.name : a \in t.inputs} = NamesOf(n[i].inputs)
 
 Emit ==
-  IF brk.rule = "" THEN (EmitModels => PrintT(ToJson([kind |-> "model", steps |-> steps, pieces |-> pieces, image |-> Image(Normalise(pieces))])))
+  IF brk.rule = "" THEN (EmitModels => PrintT(ToJson([kind |-> "model", steps |-> steps, pieces |-> pieces, introspectable |-> Introspectable(pieces), image |-> Image(Normalise(pieces))])))
   ELSE PrintT(ToJson([kind |-> "broken", rule |-> brk.rule, site |-> brk.site, pieces |-> brk.pieces]))
 =============================================================================
